@@ -155,12 +155,16 @@ def transmitter(c):
     c.inv("retry_flag", S("retry_pending") == retrying)
     c.inv("send_state_retry", z3.Implies(WS, z3.And(z3.Implies(busy == 0, retrying == 0),
                                                     z3.Implies(busy == 1, (retrying == 1) == (fresh == 0)))))
+    if ts.has("packet_in_flight"):
+        c.inv("in_flight_registers", z3.And(S("packet_in_flight") == busy, (S("packet_superseded") == 1) == z3.And(busy == 1, fresh == 0)))
     c.inv("superseded_packet_means_restart_from_oldest", z3.Implies(z3.And(busy == 1, fresh == 0), z3.And(rd == n_ret, retrying == 1)))
     c.inv("retry_state", z3.Implies(WR, retrying == 1))
     inside = z3.ULT(k - n_ret, n_acc - n_ret)
     buf = [rec_bits(b, of) for b in bufs]
     sel = lambda idx: cases(*[(idx == i, buf[i]) for i in range(N - 1)], default=buf[N - 1])
     c.inv("witness_sits_in_its_buffer", z3.Implies(inside, sel(bits(k, 1, 0)) == v))
+    seq_pos = sum(w for f, w in HDR_FIELDS[:HDR_FIELDS.index(("sequence_number", 3))])
+    c.inv("witness_sequence_number", z3.Implies(inside, z3.And(bits(v, seq_pos + 2, seq_pos) == base + bits(k, 2, 0), bring == 1)))
 
     # ---- ensures
     credits = n_lcrd - n_acc
@@ -173,9 +177,9 @@ def transmitter(c):
     tx_bits = z3.Concat(*[tx_hdr[f] for f, _ in reversed(HDR_FIELDS)])
     dl_pos = sum(w for f, w in HDR_FIELDS[:HDR_FIELDS.index(("delayed", 1))])
     dl_mask = ~z3.BitVecVal(1 << dl_pos, 128)
-    c.ensure("numbered_consecutively_from_the_advertised_sequence", z3.Implies(start, tx_hdr["sequence_number"] == base + bits(rd, 2, 0)),
-             clause="numbers headers consecutively from the partner's advertised sequence (the i-th accepted header carries advertised+1+i, "
-                    "also when it is retransmitted)")
+    c.ensure("numbered_consecutively_from_the_advertised_sequence", z3.Implies(z3.And(start, rd == k), tx_hdr["sequence_number"] == base + bits(k, 2, 0)),
+             clause="numbers headers consecutively from the partner's advertised sequence (for every k: the k-th accepted header carries "
+                    "advertised+1+k, also when it is retransmitted; k is an arbitrary fixed index)")
     c.ensure("transmitted_header_is_the_accepted_one", z3.Implies(z3.And(start, rd == k), (tx_bits & dl_mask) == (v & dl_mask)),
              clause="(the header transmitted for index k is the k-th header accepted from the queue, unchanged except for the delayed flag)")
     c.ensure("retired_only_by_lgood_with_its_number", (c.nx(n_ret) != n_ret) == ack,
@@ -208,3 +212,9 @@ def contracts(tier):
 
 
 LEVEL = "proof"
+EXPLANATION = ("Unbounded inductive proof on the real PacketTransmitter (RawPacketTransmitter and LinkCommandDetector through their contracts). "
+               "On the unchanged tree the check reports genuine defects in the LBAD handling (second LBAD during a retransmission, LBAD in the "
+               "cycle a header is accepted / dispatched / the last retransmission completes); "
+               "proposed_fixes/C39_lbad_during_retransmission.diff makes every obligation pass.")
+ASSUMPTIONS = ["link up (enable=1)", "partner acknowledges only headers it has received", "partner advertises at most four credits beyond its acknowledgements",
+               "RawPacketTransmitter / LinkCommandDetector contracts (C36 / C35)"]
